@@ -121,7 +121,43 @@ def obligations(prog):
             obs.append(Obligation("R-FLOW", oid, c[2], caller, text, ok, det, props=props))
     obs += cursor_obligations(prog)
     obs += block_consumer_obligations(prog)
-    return obs, {"sanitise": len(SANITISE), "length_id": len(LENGTH_ID), "pass_through": len(PASS_THROUGH)}
+    cb = callback_data_obligations(prog)
+    obs += cb
+    return obs, {"sanitise": len(SANITISE), "length_id": len(LENGTH_ID), "pass_through": len(PASS_THROUGH), "callback_data_sites": len(cb)}
+
+
+# (function-pointer parameter, the opaque data parameter that belongs to it)
+CALLBACK_PAIRS = [("noncefp", "noncedata"), ("noncefp", "ndata"), ("hashfp", "data"), ("cmp", "cmp_data"), ("cb", "cbdata")]
+
+
+def callback_data_obligations(prog):
+    """A caller-supplied callback travels with its caller-supplied data pointer: wherever a function hands its
+    function-pointer parameter on (or calls through it), the paired data parameter is among the arguments of that call.
+    Sees `secp256k1_dleq_prove(.., noncefp, NULL)` — the custom nonce function is invoked without its state."""
+    from core import props_of_function
+    obs = []
+    for f in sorted(prog.functions.values(), key=lambda x: x.name):
+        if not f.blocks or not f.file.startswith("src/") or f.file.endswith("tests_impl.h") or \
+                f.file.startswith(("src/bench", "src/tests", "src/testrand", "src/unit_test", "src/ctime")):
+            continue
+        for (pn, dn) in CALLBACK_PAIRS:
+            if pn not in f.param_index or dn not in f.param_index:
+                continue
+            n = 0
+            for el, c in f.all_calls():
+                through = isinstance(c[1], list) and any(x[0] == "var" and x[1] == pn for x in walk(c[1]))
+                passes = any(kind(strip(a)) == "var" and strip(a)[1] == pn for a in c[3])
+                if not (through or passes):
+                    continue
+                n += 1
+                has_data = any(any(x[0] == "var" and x[1] == dn for x in walk(a)) for a in c[3])
+                what = "calls through %s" % pn if through else "hands %s to %s" % (pn, callee_name(c))
+                obs.append(Obligation("R-FLOW", "R-FLOW:cbdata:%s:%s#%d" % (f.name, pn, n), c[2], f.name,
+                                      "%s %s: the caller's %s must be among the arguments of that call" % (f.name, what, dn), has_data,
+                                      "arguments: %s" % ", ".join(show(a)[:30] for a in c[3]), props=props_of_function(f) | {"C07"}))
+    if len(obs) < 10:
+        raise AnalysisBroken("R-FLOW: only %d callback/data call sites found (floor 10)" % len(obs))
+    return obs
 
 
 def cursor_obligations(prog):
